@@ -23,8 +23,8 @@ import (
 //   justifies it; only message types of the negotiated protocol are written.
 //
 // Deliberately lenient (not alarmed): a complete echoed for an id that was never started;
-// messages of wrong JSON shape / server-only types sent by the client may be ignored or closed
-// with 4400; a subscribe whose payload the pool refuses may be ignored or answered with
+// messages of wrong JSON shape may be ignored or closed with 4400 (well-formed messages of a
+// server-only type are invalid messages: 4400 under transport-ws, connection_error under graphql-ws); a subscribe whose payload the pool refuses may be ignored or answered with
 // error(id); ping/pong/ka may be written at any time; graphql-ws has no init guard in the
 // statement, so start before init is not alarmed; after a rejected init under graphql-ws the
 // liveness of earlier ids is "unknown" (both a duplicate answer and a fresh start are fine).
